@@ -58,6 +58,10 @@ def _solve_one(args):
     ob = _OBS[i]
     t0 = time.time()
     status, backend, model = "unknown", "z3", None
+    ext = getattr(ob, "external", None)
+    if ext is not None:
+        st = "unsat" if ext["ok"] else ("unknown" if ext["ok"] is None else "sat")
+        return (i, st, ext["seconds"], ext["backend"], None if ext["ok"] else ext["output"])
     g = z3.simplify(ob.goal)
     if z3.is_true(g):
         return (i, "unsat", time.time() - t0, "simplifier", None)
